@@ -19,7 +19,7 @@ REPO = os.environ.get("VERIF_REPO", "/repo")
 class Ob:
     """one proof obligation"""
 
-    def __init__(self, id, fn, shims=None, encoded=(), bounds="", outside="", budget_s=300, max_paths=400000, max_decisions=600, kind="symx", replay_fn=None, stubs=(), setup=None):
+    def __init__(self, id, fn, shims=None, encoded=(), bounds="", outside="", budget_s=300, max_paths=400000, max_decisions=600, kind="symx", replay_fn=None, stubs=(), setup=None, env=None):
         self.id = id
         self.fn = fn
         self.shims = shims  # callable -> {module: [names]}
@@ -33,6 +33,7 @@ class Ob:
         self.replay_fn = replay_fn  # custom: callable(inputs) -> dict(reproduced=..)
         self.stubs = list(stubs)
         self.setup = setup  # optional context-manager factory wrapping exploration (extra stubs)
+        self.env = env  # context-manager factory for environment stubs that apply to exploration AND replay (ideal QPACK, ideal crypto)
 
 
 _OBS = []
@@ -66,12 +67,10 @@ def _run_one(idx):
         else:
             spec = ob.shims() if ob.shims else {}
             cm = symx.shimmed(spec)
-            with cm:
-                if ob.setup is not None:
-                    with ob.setup():
-                        res = symx.explore(ob.fn, max_paths=ob.max_paths, max_seconds=ob.budget_s, stop_on_violation=False, seed=_SEED, max_decisions=ob.max_decisions)
-                else:
-                    res = symx.explore(ob.fn, max_paths=ob.max_paths, max_seconds=ob.budget_s, stop_on_violation=False, seed=_SEED, max_decisions=ob.max_decisions)
+            import contextlib
+
+            with cm, (ob.setup() if ob.setup is not None else contextlib.nullcontext()), (ob.env() if ob.env is not None else contextlib.nullcontext()):
+                res = symx.explore(ob.fn, max_paths=ob.max_paths, max_seconds=ob.budget_s, stop_on_violation=False, seed=_SEED, max_decisions=ob.max_decisions)
             r = res.as_dict()
             r["shims"] = {m.__name__: sorted((x if isinstance(x, str) else x[0]) for x in n) for m, n in spec.items()}
     except BaseException as exc:  # machinery failure
@@ -91,6 +90,9 @@ def _replay_one(args):
             return ob.replay_fn(inputs)
         if ob.replay_fn is not None:
             return ob.replay_fn(inputs)
+        if ob.env is not None:
+            with ob.env():
+                return symx.replay(ob.fn, inputs or {})
         return symx.replay(ob.fn, inputs or {})
     except BaseException as exc:
         return {"reproduced": False, "why": "replay crashed: %s: %s" % (type(exc).__name__, exc), "tb": traceback.format_exc()}
